@@ -58,7 +58,7 @@ ASSUMPTIONS = ['no registration (glom.register / register_op) runs concurrently 
                'PATH_STAR = True', 'user callables inside the specs do not share mutable state between calls',
                'interleavings are enumerated at the granularity of user-callable invocations']
 
-TIMEOUT = 10.0
+TIMEOUT = 3.0
 
 # ----------------------------------------------------------------------------- value codec
 
@@ -410,7 +410,14 @@ def snapshot_caches():
     reg = core._DEFAULT_SCOPE[core.TargetRegistry]
     tc = []
     cached = dict(reg._type_cache)
-    for (ty, op), h in sorted(cached.items(), key=lambda kv: (kv[0][0].__name__, kv[0][1])):
+    def tyname(t):
+        return t.__name__ if isinstance(t, type) else 'non-type-key:%r' % (t,)
+    for key, h in sorted(cached.items(), key=lambda kv: repr(kv[0])):
+        if not (isinstance(key, tuple) and len(key) == 2 and isinstance(key[0], type)):
+            tc.append([tyname(key[0]) if isinstance(key, tuple) and key else repr(key), repr(key), handler_name(h),
+                       'unexpected cache key'])
+            continue
+        ty, op = key
         try:
             sample = _instance_of(ty)
         except Exception:
